@@ -536,6 +536,16 @@ func runTimeFormulas(c *Ctx) {
 				if computedByCall(arg, 0) {
 					why = "the name is passed through a function before it is looked up"
 				}
+				// ... and it is the first agency's: no other agency's zone takes part in deciding the zone of the dates
+				{
+					within := map[*ssa.Function]bool{}
+					for _, g := range staticParseFns(c) {
+						within[g] = true
+					}
+					if e := b.bindInContext(fn, arg, within, 0); !strings.Contains(e, "[const:0].Timezone") && !strings.Contains(e, "[const:0]).Timezone") {
+						why = "the zone that is looked up is not the first agency's (" + clip(e, 80) + ")"
+					}
+				}
 				// the root of the name: through normalising calls back to what was read
 				root := arg
 				for i := 0; i < 6; i++ {
